@@ -294,6 +294,7 @@ _dispatch_unote_register_muxed(dispatch_unote_t du)
 			LIST_INSERT_HEAD(&dmn->dmn_readers_head, dul, du_link);
 		}
 		dul->du_muxnote = dmn;
+		DISPATCH_VERIF_PROBE("c16_epoll_add", du._du, dmn->dmn_fd, events);
 		_dispatch_unote_state_set(du, DISPATCH_WLH_ANON, DU_STATE_ARMED);
 	}
 	return dmn != NULL;
@@ -310,6 +311,7 @@ _dispatch_unote_resume_muxed(dispatch_unote_t du)
 		dmn->dmn_disarmed_events &= ~events;
 		events = _dispatch_muxnote_armed_events(dmn);
 		_dispatch_epoll_update(dmn, events, EPOLL_CTL_MOD);
+		DISPATCH_VERIF_PROBE("c16_epoll_rearm", du._du, dmn->dmn_fd, events);
 	}
 }
 
@@ -345,8 +347,10 @@ _dispatch_unote_unregister_muxed(dispatch_unote_t du)
 			events = _dispatch_muxnote_armed_events(dmn);
 			_dispatch_epoll_update(dmn, events, EPOLL_CTL_MOD);
 		}
+		DISPATCH_VERIF_PROBE("c16_epoll_del", du._du, dmn->dmn_fd, EPOLL_CTL_MOD);
 	} else {
 		epoll_ctl(_dispatch_epfd, EPOLL_CTL_DEL, dmn->dmn_fd, NULL);
+		DISPATCH_VERIF_PROBE("c16_epoll_del", du._du, dmn->dmn_fd, EPOLL_CTL_DEL);
 		LIST_REMOVE(dmn, dmn_list);
 		_dispatch_muxnote_dispose(dmn);
 	}
@@ -560,6 +564,7 @@ _dispatch_event_merge_hangup(dispatch_unote_t du)
 	du_state &= ~DU_STATE_ARMED;
 	_dispatch_unote_state_set(du, du_state);
 	uintptr_t data = 0;  // EOF
+	DISPATCH_VERIF_PROBE("c16_merge_hup", du._du, 0, 0);
 	os_atomic_store2o(du._dr, ds_pending_data, ~data, relaxed);
 	dux_merge_evt(du._du, EV_DELETE|EV_DISPATCH, data, 0);
 }
@@ -579,6 +584,7 @@ _dispatch_event_merge_fd(dispatch_muxnote_t dmn, uint32_t events)
 			// consumed by dux_merge_evt()
 			_dispatch_retain_unote_owner(du);
 			dispatch_assert(dux_needs_rearm(du._du));
+			DISPATCH_VERIF_PROBE("c16_merge_fd", du._du, dmn->dmn_fd, events);
 			_dispatch_unote_state_clear_bit(du, DU_STATE_ARMED);
 			os_atomic_store2o(du._dr, ds_pending_data, ~data, relaxed);
 			dux_merge_evt(du._du, EV_ADD|EV_ENABLE|EV_DISPATCH, data, 0);
@@ -592,6 +598,7 @@ _dispatch_event_merge_fd(dispatch_muxnote_t dmn, uint32_t events)
 			// consumed by dux_merge_evt()
 			_dispatch_retain_unote_owner(du);
 			dispatch_assert(dux_needs_rearm(du._du));
+			DISPATCH_VERIF_PROBE("c16_merge_fd", du._du, dmn->dmn_fd, events);
 			_dispatch_unote_state_clear_bit(du, DU_STATE_ARMED);
 			os_atomic_store2o(du._dr, ds_pending_data, ~data, relaxed);
 			dux_merge_evt(du._du, EV_ADD|EV_ENABLE|EV_DISPATCH, data, 0);
